@@ -78,6 +78,11 @@ def replay_file(path):
                      "trace_tail": _jsonable(plain(ctx.trace_items)[-30:])}
         if rec["tag"] in tags:
             reproduced = True
+        elif mode == "float":
+            # the inputs are exactly representable floats: what a user would pass must
+            # reproduce; a failure only under the exact-rational number type does not count
+            out["note"] = "does not reproduce with float inputs"
+            return False, out
     return reproduced, out
 
 
